@@ -11,7 +11,7 @@ def scripts_from(hists, ia, ib, skew):
     for h in hists:
         lines = ["reset ia=%d ib=%d skew=%d" % (ia * UNIT_S, ib * UNIT_S, skew * UNIT_S * 1000)]
         for a in h:
-            lines.append("adv ms=%d" % (UNIT_S * 1000) if a["op"] == "adv" else "tick n=%s" % a["n"])
+            lines.append("adv ms=%d" % (UNIT_S * 1000) if a["op"] == "adv" else "rehs from=%s" % a["n"] if a["op"] == "rehs" else "tick n=%s" % a["n"])
         lines += ["send from=a", "send from=b"]
         out.append(lines)
     return out
@@ -26,6 +26,11 @@ def run(chk):
         r = vlib.mc("KeyRotation", "MC_KeyRotation%s.cfg" % cfg, workers=2, timeout=300)
         chk.add_model("KeyRotation %s: C39_SameKeyWhileOpen holds" % cfg, r)
     vlib.mc("KeyRotation", "MC_KeyRotation_reach_equal.cfg", expect_violation="Reach_BothRotatedEqually", workers=2, timeout=300)
+    # "... or the session is torn down and re-established": a re-handshake over the open connection puts both ends on one key again
+    r = vlib.mc("KeyRotation", "MC_KeyRotation_rehs.cfg", workers=2, timeout=300)
+    chk.add_model("KeyRotation as coded with one re-handshake over the open connection: C39_ReHandshakeConverges holds", r)
+    vlib.mc("KeyRotation", "MC_KeyRotation_dev_rehsignored.cfg", expect_violation="C39_ReHandshakeConverges", workers=2, timeout=300)
+    vlib.mc("KeyRotation", "MC_KeyRotation_reach_rehs.cfg", expect_violation="Reach_ReHandshakeAfterDrift", workers=2, timeout=300)
     r, hists = vlib.dump_hists("KeyRotation", "MC_KeyRotation_gen.cfg", workers=2, timeout=300)
     chk.add_model("KeyRotation design as coded (IntA=2, IntB=3, skew 1, now<=6): reachable states used as tick schedules", r)
     hists = [h for h in hists if h]
@@ -41,14 +46,21 @@ def run(chk):
                 lines.append("adv ms=%d" % rng.choice([1, 999, 1000, 2500, 4999, 5000, 5001, 10000]))
             elif x < 0.85:
                 lines.append("tick n=%s" % rng.choice("ab"))
-            elif x < 0.93:
+            elif x < 0.90:
                 lines.append("send from=%s" % rng.choice("ab"))
+            elif x < 0.95:
+                lines.append("rehs from=%s" % rng.choice("ab"))
             else:
                 lines.append("intrude n=%s k=%d" % (rng.choice("ab"), rng.randrange(100)))
         beh.append(lines)
     # a refused third-party handshake under the peer's id, inside the rotation interval: nothing may move
     for n in "ab":
         beh.insert(0, ["reset ia=3600 ib=3600 skew=0 seed=7 hpow=16", "send from=a", "intrude n=%s k=1" % n, "send from=a", "send from=b", "intrude n=%s k=2" % n, "tick n=a", "tick n=b", "send from=b"])
+    # drift by one end's rotation, then a re-handshake over the open connection: the session is re-established on one key
+    for frm in "ab":
+        for ia, ib in ((5, 5), (5, 3600), (3600, 5)):
+            beh.insert(0, ["reset ia=%d ib=%d skew=0 seed=3 hpow=0" % (ia, ib), "send from=a", "adv ms=5300", "tick n=a", "tick n=b", "rehs from=%s" % frm, "send from=a", "send from=b",
+                           "adv ms=5300", "tick n=b", "tick n=a", "rehs from=%s" % frm, "send from=b"])
     if not thorough:
         beh = beh[:40] + rng.sample(beh[40:], min(len(beh) - 40, 110)) if len(beh) > 150 else beh
     execute(chk, beh, "tlc-schedules+random-phases")
